@@ -260,19 +260,22 @@ def admit (p : Policy) (candKey victKey : Nat) : Policy × Bool :=
     | [] => (p, false)
   else (p, false)
 
-def evictFromMain (p : Policy) (candidate : Option Nat) : Policy :=
-  let rec go (p : Policy) (victimQueue candidateQueue : Nat) (victim candidate : Option Nat) (fuel : Nat) : Policy :=
+/-- evictFromMain, with a flag telling whether the model's loop bound (not present in the code, whose loop is unbounded) was hit;
+    the driver rejects a run in which it is -/
+def evictFromMainX (p : Policy) (candidate : Option Nat) : Policy × Bool :=
+  let rec go (p : Policy) (victimQueue candidateQueue : Nat) (victim candidate : Option Nat) (fuel : Nat) : Policy × Bool :=
     match fuel with
-    | 0 => p
+    | 0 => (p, true)
     | fuel + 1 =>
-      if !(BitVec.ult p.maximum p.weightedSize) then p else
+      if !(BitVec.ult p.maximum p.weightedSize) then (p, false) else
       -- search the admission window for additional candidates
-      let (candidate, candidateQueue) :=
-        if candidate.isNone && candidateQueue == 1 then (p.window.head?, 0) else (candidate, candidateQueue)
+      let refill := candidate.isNone && candidateQueue == 1
+      let candidate := if refill then p.window.head? else candidate
+      let candidateQueue := if refill then 0 else candidateQueue
       if candidate.isNone && victim.isNone then
         if victimQueue == 1 then go p 2 candidateQueue p.prot.head? candidate fuel
         else if victimQueue == 2 then go p 0 candidateQueue p.window.head? candidate fuel
-        else p
+        else (p, false)
       else
       -- skip zero-weight entries
       match victim, candidate with
@@ -310,12 +313,19 @@ def evictFromMain (p : Policy) (candidate : Option Nat) : Policy :=
         else
           let cn := next p c
           go (evictNode p c) victimQueue candidateQueue none cn fuel
-      | none, none => p
+      | none, none => (p, false)
   go p 1 1 p.probation.head? candidate (4 * (p.window.length + p.probation.length + p.prot.length) + 16)
+
+def evictFromMain (p : Policy) (candidate : Option Nat) : Policy := (evictFromMainX p candidate).1
 
 def evictNodes (p : Policy) : Policy :=
   let (p, cand) := evictFromWindow p
   evictFromMain p cand
+
+/-- did the model's loop bound cut the eviction loop short? (checked to be false on every run by the driver) -/
+def evictNodesRanOut (p : Policy) : Bool :=
+  let (p, cand) := evictFromWindow p
+  (evictFromMainX p cand).2
 
 def demoteFromMainProtected (p : Policy) : Policy :=
   if BitVec.ule p.mainProtectedWeightedSize p.mainProtectedMaximum then p
